@@ -25,13 +25,26 @@ pub fn check_parse(prog: &AProg, style: &Style, out: &mut Vec<Fail>) -> Option<P
     let text = rendered.text.clone();
     let ast = match catch(|| parse_ast(&text)) {
         Err(p) => { fail(out, "C04", format!("panic:{}", panic_site(&p)), format!("parse_ast panicked: {p}\n{text}")); return None; }
-        Ok(Err(e)) => { fail(out, "C03", "parse-rejects", format!("in-grammar text rejected: {e:?}\n{text}")); return None; }
+        Ok(Err(e)) => {
+            fail(out, "C03", "parse-rejects", format!("in-grammar text rejected: {e:?}\n{text}"));
+            // no object file for a well-formed program is a C01 failure wherever the rejection happens
+            let rr = refasm::assemble(prog);
+            if rr.violated.is_empty() && !rr.ambiguous { fail(out, "C01", "no-object:parse-rejects", format!("well-formed program produced no object file: the parser rejected it: {e:?}\n{text}")); }
+            return None;
+        }
         Ok(Ok(a)) => a,
     };
-    if ast.len() != prog.len() { fail(out, "C03", "stmt-count", format!("{} statements parsed, {} written\n{text}", ast.len(), prog.len())); return None; }
+    if ast.len() != prog.len() {
+        fail(out, "C03", "stmt-count", format!("{} statements parsed, {} written\n{text}", ast.len(), prog.len()));
+        let rr = refasm::assemble(prog);
+        if rr.violated.is_empty() && !rr.ambiguous { fail(out, "C01", "wrong-statements", format!("well-formed program: {} statements parsed, {} written, so the image cannot be the program's\n{text}", ast.len(), prog.len())); }
+        return None;
+    }
+    let mut mismatch = false;
     for (i, (s, a)) in ast.iter().zip(prog.iter()).enumerate() {
         let got = project(s); let exp = normalize_stmt(a);
-        if got != exp { fail(out, "C03", "stmt-mismatch", format!("statement {i}: parsed {got:?}, written {exp:?}\n{text}")); return None; }
+        // a statement parsed differently from what was written is C03's finding; the pipeline goes on, so that the image (C01) is judged against the text as well
+        if got != exp { if !mismatch { fail(out, "C03", "stmt-mismatch", format!("statement {i}: parsed {got:?}, written {exp:?}\n{text}")); } mismatch = true; continue; }
         if s.span != rendered.spans[i] {
             fail(out, "C03", "stmt-span", format!("statement {i}: span {:?} = {:?}, expected {:?} = {:?}", s.span, text.get(s.span.clone()), rendered.spans[i], &text[rendered.spans[i].clone()]));
         }
@@ -255,6 +268,16 @@ pub fn check_symbols(obj: &ObjectFile, ro: &refasm::RefObj, prog: &AProg, r: &Re
     for (l, a) in &exp {
         let g = sym.rev_lookup_line(*a);
         if g != Some(*l) { fail(out, "C24", "rev_lookup_line", format!("rev_lookup_line(x{a:04X}) = {g:?}, expected line {l}\n{text}")); break; }
+    }
+    // the address a line maps to must be where the object file really holds that statement's first word: the table is also judged against
+    // the placement in the image (a table that agrees with a size model while the words sit elsewhere is of no use to a debugger)
+    let image: BTreeMap<u16, Option<u16>> = obj.addr_iter().collect();
+    for (l, a) in &got {
+        if exp.get(l) != Some(a) { continue; }
+        match (image.get(a), ro.image.get(a)) {
+            (Some(g), Some(e)) if g == e => {}
+            (g, e) => { fail(out, "C24", "line-address-not-statement-start", format!("line {l} maps to x{a:04X}, where the object file holds {g:x?}; the first word of that line's statement is {e:x?}\n{text}")); break; }
+        }
     }
     let mapped: BTreeSet<u16> = exp.values().copied().collect();
     for (a, _) in ro.image.iter().take(600) {
